@@ -300,7 +300,9 @@ CLAIMED = {
         'loop with its nesting level, buffer and previous-character state); the options of a list annotation come back in order and an '
         'annotation body is split into its name and options (C10_list_options, C10_list_annotation); for EVERY list of list annotations '
         'with distinct names and well-formed options, parsing what the project\'s writer serializes gives the same annotations, an '
-        'empty description and no complaint (C10_write_parse_roundtrip). Tie: 600 (thorough 6000) field strings - serialized '
+        'empty description and no complaint (C10_write_parse_roundtrip); a field without annotations is its description, a leading colon '
+        'included, and annotations + colon + description as the writer lays them out give back both (C10_description_without_annotations, '
+        'C10_annotations_and_description; the first was false before fix 4782904). Tie: 600 (thorough 6000) field strings - serialized '
         'annotation sets in varying layouts, a malformed stream and character soup - go through the real _parse_fields and are compared '
         'with Model.C10.parse_fields inside Coq (success, every annotation with its options, description), the real '
         '_serialize_annotations is compared byte for byte with the model, and whole blocks (identifier kinds, parameters, multi-paragraph '
